@@ -218,6 +218,12 @@ class Soap11(XmlDocument):
             raise Fault('Client.SoapError', 'Soap body is empty!')
 
         if body_document.tag == '{%s}Fault' % self.ns_soap_env:
+            if message is self.REQUEST:
+                # only a response can be a fault. there's no method to
+                # dispatch this to.
+                raise Fault('Client.SoapError',
+                                        'A Fault element is not a valid request')
+
             ctx.in_body_doc = body_document
 
         else:
